@@ -44,6 +44,8 @@ structure Sim (st : St) (r : Ref) : Prop where
   permsKnown : ∀ p, p ∈ r.perms → AMap.contains r.users p.1.2 = true
   chanKeysNodup : (AMap.keys r.chans).Nodup
   userKeysNodup : (AMap.keys r.users).Nodup
+  /-- no channel is tracked under the empty name (KICK with an empty channel would mean QUIT) -/
+  chanKeysNonempty : ∀ k, AMap.contains r.chans k = true → k ≠ []
 
 /-- Executable version of `Sim`, used by the correspondence check to test the relation on real histories
     (quantifiers range over the keys present on either side). Returns the first clause that fails. -/
@@ -66,6 +68,7 @@ def simWhy (st : St) (r : Ref) : Option String :=
       | some u => decide ((AMap.get? u.perms m.1).getD {} = r.getPerms m.1 m.2) | none => true) then some "perms"
   else if !r.perms.all (fun p => AMap.contains r.users p.1.2) then some "permsKnown"
   else if !nodupKeys (AMap.keys r.chans) || !nodupKeys (AMap.keys r.users) then some "refKeys"
+  else if (AMap.keys r.chans).any (·.isEmpty) then some "chanKeysNonempty"
   else none
 
 /-- The event-level run of the implementation model (outputs dropped). -/
